@@ -361,7 +361,7 @@ fn main() {
     // probes first: if one dies, the random subs below avoid those expression kinds (see strip_unsupported)
     check.enumerate("abort_probes_direct", probes(), run_probe("direct"));
     check.enumerate("abort_probes_engine", probes(), run_probe("engine"));
-    check.explore("direct", strat, 30_000, 600_000, run_direct);
-    check.explore("engine", strat, 1_200, 30_000, run_engine);
+    check.explore("direct", strat, 150_000, 3_000_000, run_direct);
+    check.explore("engine", strat, 6_000, 120_000, run_engine);
     check.finish();
 }
